@@ -1,3 +1,4 @@
+import FparserModel.Wire
 import FparserModel.Expr
 
 /-!
@@ -21,7 +22,7 @@ import FparserModel.Expr
               `Class kind opclass lhs rhs next excl`.
 -/
 namespace FpDriver.Expr
-open Fp.Expr
+open Fp.Expr Fp.Wire
 
 def lvOfName (s : String) : Option Lv :=
   [Lv.expr, .l5, .equivOp, .orOp, .andOp, .l4, .l3, .l2, .l2u, .addOp, .multOp, .l1, .prim].find?
@@ -35,13 +36,18 @@ def run (k : Lv) (line : String) : String :=
     | some e => e.sexp
     | none => "reject"
 
-def handle : String → List String → Option String
-  | "expr", [line] => some (run .expr line)
+def ok (r : String) : String := "OK\t" ++ enc r
+
+/-- `args` are the raw (hex) fields of the request; the result is the complete reply line;
+`none` = not a command of this model -/
+def handle (cmd : String) (args : List String) : Option String :=
+  match cmd, args.map dec with
+  | "expr", [line] => some (ok (run .expr line))
   | "expr", [line, cls] =>
     match lvOfName cls with
-    | some k => some (run k line)
-    | none => some "badclass"
-  | "exprlevels", _ => some (levelsText levels)
+    | some k => some (ok (run k line))
+    | none => some (ok "badclass")
+  | "exprlevels", _ => some (ok (levelsText levels))
   | _, _ => none
 
 end FpDriver.Expr
